@@ -4,28 +4,28 @@
 # everywhere); `cap` only stops submission of new chunks on a slow host.
 PROPS = {
     "C02": dict(machine="solver", level="fault_enumeration",
-                quick=dict(runs=24000, cap=60, selftest=200),
-                thorough=dict(runs=400000, cap=900, selftest=2000)),
+                quick=dict(runs=80000, cap=60, selftest=200),
+                thorough=dict(runs=800000, cap=900, selftest=2000)),
     "C09": dict(machine="unitscope", level="fault_enumeration",
-                quick=dict(runs=8000, cap=60, selftest=150),
+                quick=dict(runs=10000, cap=60, selftest=150),
                 thorough=dict(runs=200000, cap=900, selftest=1500)),
     "C07": dict(machine="quantity", level="exploration",
-                quick=dict(runs=16000, cap=60, selftest=150),
+                quick=dict(runs=24000, cap=60, selftest=150),
                 thorough=dict(runs=400000, cap=900, selftest=1500)),
     "C04": dict(machine="quantity", level="exploration",
-                quick=dict(runs=16000, cap=60, selftest=150),
+                quick=dict(runs=32000, cap=60, selftest=150),
                 thorough=dict(runs=400000, cap=900, selftest=1500)),
     "C14": dict(machine="dipstore", level="exploration",
-                quick=dict(runs=6000, cap=80, selftest=100),
+                quick=dict(runs=8000, cap=80, selftest=100),
                 thorough=dict(runs=150000, cap=1200, selftest=1000)),
     "C16": dict(machine="dipstore", level="exploration",
-                quick=dict(runs=6000, cap=80, selftest=100),
+                quick=dict(runs=8000, cap=80, selftest=100),
                 thorough=dict(runs=150000, cap=1200, selftest=1000)),
     "C17": dict(machine="dipstore", level="exploration",
-                quick=dict(runs=6000, cap=80, selftest=100),
+                quick=dict(runs=8000, cap=80, selftest=100),
                 thorough=dict(runs=150000, cap=1200, selftest=1000)),
     "C20": dict(machine="helpers", level="exploration", pure="pure_clauses",
-                quick=dict(runs=24000, cap=60, selftest=200),
+                quick=dict(runs=80000, cap=60, selftest=200),
                 thorough=dict(runs=600000, cap=900, selftest=2000)),
 }
 
